@@ -466,7 +466,7 @@ def shift_agreement(facts, res):
                           t, ("under `%s`" % guards[0][:90]) if guards else "unconditionally", sorted(nz)))
 
 
-def tiling(facts, cls, res, formulas):
+def tiling(facts, cls, res, formulas, nmax=10):
     """C10.6: the near field and the transfer windows of the virtual levels tile the repetition interval: every image box of the
     interval reported by the library is received exactly once, for every number of extra levels.
 
@@ -730,7 +730,7 @@ def tiling(facts, cls, res, formulas):
         raise AnalysisBroken("%s: interval of the real periodic tree alone (n = -1) not available" % cls)
     nlo, nhi = int(SY(near[1])), int(SY(near[2]))
     checked = 0
-    for n in range(0, 11):
+    for n in range(0, nmax + 1):
         H = int(Hn.subs(N, n))
         fl = formulas[0] if n == 0 else formulas["else"]
         want = (int(SY(fl[1]).subs(P, 2 ** n)), int(SY(fl[2]).subs(P, 2 ** n)) + 1)
@@ -804,7 +804,7 @@ def run(res, tier):
     lit = [z for z in walk(gl[0]["c"][0]) if z.get("k") == "IntegerLiteral"] if len(gl) == 1 else []
     if len(lit) != 1:
         raise AnalysisBroken("TbfDefaultLastLevelPeriodic not found as an integer constant")
-    npairs = decomp.check_periodic(facts, res, "C10.8.periodic-real-tree", "TbfMortonSpaceIndex", int(lit[0]["val"]))
+    npairs = decomp.check_periodic(facts, res, "C10.8.periodic-real-tree", "TbfMortonSpaceIndex", int(lit[0]["val"]), thorough=(tier == "thorough"))
     res.floor("C10.8.periodic-real-tree", npairs, 1000, "(target, unwrapped source) pairs")
     res.instance("C10.8.periodic-real-tree", "model size", "rules/decomp.py", "%d (target leaf cell, unwrapped source leaf cell) pairs examined" % npairs)
     res.obligations += npairs
@@ -832,7 +832,7 @@ def run(res, tier):
         w = windows(facts, cls, res, morton_nb)
         v = virtual_levels(facts, cls)
         extension_geometry(facts, cls, res)
-        tiling(facts, cls, res, f1)
+        tiling(facts, cls, res, f1, nmax=(30 if tier == "thorough" else 10))
         summ[cls] = {"formulas": f1, "windows": w, "virtual": v}
     a, b = summ[CLASSES[0]], summ[CLASSES[1]]
     R = "C10.3.sibling-agreement"
